@@ -1,7 +1,10 @@
 import Prism.Proofs.C06
+import Prism.Proofs.C06Stream
 
 #print axioms Prism.Jpeg.C06_jpeg_reassembly
 #print axioms Prism.Jpeg.C06_jpeg_finish_complete
 #print axioms Prism.Jpeg.C06_jpeg_error_sticks
 #print axioms Prism.Jpeg.C06_jpeg_incomplete
 #print axioms Prism.Jpeg.C06_jpeg_inconsistent_total
+#print axioms Prism.Jpeg.C06_jpeg_stream
+#print axioms Prism.Jpeg.C06_jpeg_stream_pure
